@@ -3,7 +3,7 @@ import ast
 
 from . import rule, info
 from ..program import AnalysisError, src, norm, ClassInfo
-from ..util import (polarity, is_name, calls_in, callee_qual, deref, ancestors, stmt_of, parent, handler_outcomes,
+from ..util import (exclusive, polarity, is_name, calls_in, callee_qual, deref, ancestors, stmt_of, parent, handler_outcomes,
                     handler_covers, fmt_witness, completes_normally, evaluator_calls)
 from .c01 import model
 
@@ -101,6 +101,19 @@ def worklist(ctx):
                 if pth is None:
                     guarded = True
             ctx.ob(guarded, u, 'inside the loop the expansion is guarded by `id(%s) not in %s`' % (x, seen), node=e)
+            # ... and by nothing else: every object not yet visited is expanded (what has children
+            # is the registry's business -- a str / int subclass with attributes has some)
+            ctl = [t for t in cfg.nodes if t.kind == 'test' and t is not ln and ln in t.loop_stack
+                   and (en in exclusive(cfg, t, 'true') or en in exclusive(cfg, t, 'false'))]
+            extra = [norm(t.ast) for t in ctl if t not in tests]
+            # a guard clause ``if <cond>: continue`` before the expansion also decides
+            for t in cfg.nodes:
+                if t.kind == 'test' and t is not ln and ln in t.loop_stack and t not in tests and t not in ctl \
+                        and cfg.dominates(t, en) and cfg.find_path(t, {en}, avoid={ln}, labels=lambda l: l != 'exc',
+                                                                  start_labels=lambda l: l == 'true') is None:
+                    extra.append(norm(t.ast))
+            ctx.ob(not extra, u, 'every object not visited before is expanded (no other condition skips it)',
+                   '' if not extra else 'objects for which `%s` holds are treated as leaves' % extra[0], node=e)
             ctx.ob(is_name(lp.target, x), u, 'the expanded object is the worklist item of this iteration', node=e)
     # the worklist only grows by expansions (and the final insertion of the value itself)
     others = [c for s in body for c in ast.walk(s) if isinstance(c, ast.Call) and isinstance(c.func, ast.Attribute)
